@@ -61,6 +61,7 @@ thread_local!
 {
     static SINK: RefCell<Option<Vec<Event>>> = const { RefCell::new(None) };
     static NEXT_ID: Cell<u64> = const { Cell::new(1) };
+    static LIMIT: Cell<usize> = const { Cell::new(usize::MAX) };
 }
 
 /// Installs an empty sink on this thread and resets the command-id counter.
@@ -82,10 +83,27 @@ pub fn drain() -> Vec<Event>
     SINK.with(|s| s.borrow_mut().as_mut().map(std::mem::take)).unwrap_or_default()
 }
 
+/// Message of the panic raised when the sink overflows its limit (see [`set_limit`]).
+pub const LIMIT_MSG: &str = "cobweb_verif: event limit exceeded";
+
+/// Bounds the number of events the sink accepts: one more makes `emit` panic (unless the thread is already panicking),
+/// so that a reaction tree that never terminates ends as a caught panic in the harness instead of exhausting memory.
+pub fn set_limit(limit: usize)
+{
+    LIMIT.with(|l| l.set(limit));
+}
+
 /// Records an event if a sink is installed on this thread.
 pub fn emit(event: Event)
 {
-    SINK.with(|s| { if let Some(v) = s.borrow_mut().as_mut() { v.push(event); } });
+    let full = SINK.with(|s| {
+        let mut s = s.borrow_mut();
+        let Some(v) = s.as_mut() else { return false; };
+        if v.len() >= LIMIT.with(|l| l.get()) { return true; }
+        v.push(event);
+        false
+    });
+    if full && !std::thread::panicking() { panic!("{}", LIMIT_MSG); }
 }
 
 /// Fresh identity for a `SystemCommandSetup`.
